@@ -26,7 +26,8 @@
 
 enum {
 	OP_SIGN = 1, OP_VERIFY = 2, OP_VERIFY_PRIV = 3, OP_VERIFY_BN = 4, OP_KEYGEN = 5,
-	OP_RECOVER = 6, OP_DH = 7, OP_EXPORT = 8, OP_IMPORT = 9, OP_INFO = 10
+	OP_RECOVER = 6, OP_DH = 7, OP_EXPORT = 8, OP_IMPORT = 9, OP_INFO = 10,
+	OP_SIGN_BN = 11, OP_KG_BN = 12, OP_DH_BN = 13
 };
 
 /* ---- failpoint: overrides the weak hook behind BN_RET_ON_ERR ---- */
@@ -309,6 +310,111 @@ main(void) {
 				vout_blob(&out, "", 0); vout_blob(&out, "", 0);
 			}
 			xb_free(&qx); xb_free(&qy);
+			break;
+		}
+		case OP_SIGN_BN: {
+			/* bn-level ecdsa_sign() on caller-owned objects.  alias bit0: sign_s is the rnd object,
+			 * bit1: sign_r is the hash object (both permitted by the header comment).  The output
+			 * objects live across the steps of one case, so step 2 finds the signature of step 1 in
+			 * them; preload puts given numbers there before step 1.  After every successful step the
+			 * result goes through ecdsa_verify() and ecdsa_verify_priv_key(). */
+			static bn_t o_r, o_s, o_e, o_k, o_d, o_e2;
+			size_t n1, n2, n3, n4, n5, bits = EC_CURVE_CALC_BITS_DBL(curve);
+			const uint8_t *pd = vin_blob(&in, &n1), *px = vin_blob(&in, &n2), *py = vin_blob(&in, &n3);
+			uint8_t alias = vin_u8(&in), preload = vin_u8(&in);
+			const uint8_t *p4 = vin_blob(&in, &n4), *p5 = vin_blob(&in, &n5);
+			uint8_t nsteps = vin_u8(&in), st;
+			vout_t tmp = {0};
+			int last = RC_SETUP;
+			if (in.bad) goto bad;
+			if (0 != bn_from_be(&o_d, bits, pd, n1) || 0 != bn_from_be(&Q.x, curve->m, px, n2) ||
+			    0 != bn_from_be(&Q.y, curve->m, py, n3)) goto bad;
+			Q.infinity = 0;
+			if (preload) {
+				if (0 != bn_from_be(&o_r, bits, p4, n4) || 0 != bn_from_be(&o_s, bits, p5, n5)) goto bad;
+			} else {
+				memset(&o_r, pat, sizeof(o_r)); memset(&o_s, pat, sizeof(o_s));
+				if (0 != bn_init(&o_r, bits) || 0 != bn_init(&o_s, bits)) goto bad;
+			}
+			for (st = 0; st < nsteps; st ++) {
+				size_t m1, m2;
+				const uint8_t *pe = vin_blob(&in, &m1), *pk = vin_blob(&in, &m2);
+				bn_p pr, ps;
+				int v1 = RC_SETUP, v2 = RC_SETUP;
+				if (in.bad) goto bad;
+				if (0 != bn_from_be(&o_e, bits, pe, m1) || 0 != bn_from_be(&o_e2, bits, pe, m1) ||
+				    0 != bn_from_be(&o_k, bits, pk, m2)) goto bad;
+				pr = (alias & 2) ? &o_e : &o_r;
+				ps = (alias & 1) ? &o_k : &o_s;
+				begin(arm, pat);
+				last = ecdsa_sign(curve, &o_e, &o_d, &o_k, pr, ps);
+				end();
+				vout_i32(&tmp, last);
+				out_bn(&tmp, pr); out_bn(&tmp, ps); out_bn(&tmp, &o_k); out_bn(&tmp, &o_e);
+				if (0 == last) {
+					v1 = ecdsa_verify(curve, &o_e2, pr, ps, &Q);
+					v2 = ecdsa_verify_priv_key(curve, &o_e2, pr, ps, &o_d);
+				}
+				vout_i32(&tmp, v1); vout_i32(&tmp, v2);
+			}
+			head(&out, last); vout_u8(&out, nsteps); vout_raw(&out, tmp.p, tmp.n);
+			free(tmp.p);
+			break;
+		}
+		case OP_KG_BN: {
+			/* bn-level key generation / base point multiplication into a caller-owned point that is
+			 * fresh (dirty 0), was imported from the byte 00 (1) or has the infinity flag set over stale
+			 * coordinates (2); then what a caller does with the key: export, Diffie-Hellman. */
+			static bn_t o_d, o_d2, o_sh;
+			size_t n1, n2, n3, n4, bits = EC_CURVE_CALC_BITS_DBL(curve), bytes = EC_CURVE_CALC_BYTES(curve);
+			uint8_t mode = vin_u8(&in), dirty = vin_u8(&in);
+			const uint8_t *sx = vin_blob(&in, &n1), *sy = vin_blob(&in, &n2), *pd = vin_blob(&in, &n3);
+			uint8_t cof = vin_u8(&in);
+			const uint8_t *pd2 = vin_blob(&in, &n4);
+			uint8_t zero = 0;
+			xb_t ex = out_buf(1 + 2 * bytes);
+			size_t esz = (size_t)0xfffffffe;
+			int rc_e, rc_dh;
+			if (in.bad) goto bad;
+			memset(&P, pat, sizeof(P));
+			if (0 != ec_point_init(&P, bits)) goto bad;
+			if (1 == dirty) {
+				if (0 != ecdsa_pub_key_import_be(curve, &zero, NULL, 1, &P)) goto bad;
+			} else if (2 == dirty) {
+				if (0 != bn_from_be(&P.x, bits, sx, n1) || 0 != bn_from_be(&P.y, bits, sy, n2)) goto bad;
+				P.infinity = 1;
+			}
+			if (0 != bn_from_be(&o_d, bits, pd, n3) || 0 != bn_from_be(&o_d2, bits, pd2, n4) ||
+			    0 != bn_init(&o_sh, bits)) goto bad;
+			begin(arm, pat);
+			rc = (0 == mode) ? ecdsa_key_gen(curve, &o_d, &P) : ec_point_mult_bp(&o_d, curve, &P);
+			end();
+			head(&out, rc); vout_u8(&out, (uint8_t)(0 != P.infinity));
+			out_bn(&out, &P.x); out_bn(&out, &P.y); out_bn(&out, &o_d);
+			rc_e = ecdsa_pub_key_export_be(curve, 0, &P, ex.p, NULL, &esz);
+			vout_i32(&out, rc_e); vout_u32(&out, (uint32_t)esz); vout_blob(&out, ex.p, ex.n);
+			rc_dh = ecdsa_dh(curve, cof, &P, &o_d2, &o_sh);
+			vout_i32(&out, rc_dh);
+			if (0 == rc_dh) out_bn(&out, &o_sh); else vout_blob(&out, "", 0);
+			xb_free(&ex);
+			break;
+		}
+		case OP_DH_BN: {
+			/* bn-level ecdsa_dh(): the point argument is used as given (no validation at this level) */
+			static bn_t o_d, o_sh;
+			size_t n1, n2, n3, bits = EC_CURVE_CALC_BITS_DBL(curve);
+			const uint8_t *px = vin_blob(&in, &n1), *py = vin_blob(&in, &n2);
+			uint8_t inf = vin_u8(&in), cof = vin_u8(&in), alias = vin_u8(&in);
+			const uint8_t *pd = vin_blob(&in, &n3);
+			if (in.bad) goto bad;
+			if (0 != bn_from_be(&Q.x, curve->m, px, n1) || 0 != bn_from_be(&Q.y, curve->m, py, n2) ||
+			    0 != bn_from_be(&o_d, bits, pd, n3) || 0 != bn_init(&o_sh, bits)) goto bad;
+			Q.infinity = inf;
+			begin(arm, pat);
+			rc = ecdsa_dh(curve, cof, &Q, &o_d, alias ? &o_d : &o_sh);
+			end();
+			head(&out, rc);
+			if (0 == rc) out_bn(&out, alias ? &o_d : &o_sh); else vout_blob(&out, "", 0);
 			break;
 		}
 		default:
